@@ -138,18 +138,41 @@ def damage_cases(ctx, recs, paired_recs=None):
         cases.append((f"paired: mate {k} renamed", data, ("\n".join(bad) + "\n").encode(), True, False))
         cases.append(("paired: R2 truncated mid-record", data, d2[: len(d2) - 7], True, False))
         cases.append(("paired: R2 empty", data, b"", True, False))
+        # well-formed input in which one R1 is used up by -u 2, with the per-read text files switched on
+        # ("exit status 0 ... and then the output contains every record", whatever else the run writes)
+        short = list(recs)
+        short[k] = (short[k][0], short[k][1][:2], short[k][2][:2])
+        cases.append(("paired: undamaged, info file, one R1 of two bases", fastq_bytes(short), d2, True, False))
+        cases.append(("paired: undamaged, rest file, one R1 of two bases", fastq_bytes(short), d2, True, False))
+        # one interleaved file (a single input file for the runner: dnaio reports these faults without a line number)
+        il = [x for pair in zip(recs, paired_recs) for x in pair]
+        dil = fastq_bytes(il)
+        lil = dil.decode().split("\n")[:-1]
+        cases.append(("interleaved: undamaged", dil, None, True, False))
+        cases.append(("interleaved: last mate missing", ("\n".join(lil[:-4]) + "\n").encode(), None, True, False))
+        badil = list(lil)
+        badil[8 * k + 4] = "@other" + badil[8 * k + 4][3:]
+        cases.append((f"interleaved: mate {k} renamed", ("\n".join(badil) + "\n").encode(), None, True, False))
+        cases.append(("interleaved: truncated mid-record", dil[: len(dil) - 7], None, True, False))
+        cases.append(("interleaved: truncated behind an R1 header", ("\n".join(lil[:-3]) + "\n").encode(), None, True, False))
     return cases
 
 
 def execute(ctx, desc, recs, recs2, d1, d2, container_ok, gz, cores, bs, seed, w):
     """One execution of the damaged input; returns (event without id, hook log, deadlock, result)."""
     paired = d2 is not None
+    il = desc.startswith("interleaved")
     in1 = "in1.fastq.gz" if gz else "in1.fastq"
     inputs = {in1: d1}
     if paired:
         inputs["in2.fastq"] = d2
     argv = ["-u", "2"] + (["-U", "2", "-o", "o1.fastq", "-p", "o2.fastq", in1, "in2.fastq"] if paired
+                          else ["-U", "2", "--interleaved", "-o", "o1.fastq", "-p", "o2.fastq", in1] if il
                           else ["-o", "o1.fastq", in1])
+    if "info file" in desc:
+        argv = ["--info-file", "info.tsv"] + argv
+    if "rest file" in desc:
+        argv = ["--rest-file", "rest.txt", "--wildcard-file", "wc.txt"] + argv
     if cores > 1:
         argv = ["-j", str(cores), "--buffer-size", str(bs)] + argv
         res, sched = RC.run_virtual(argv, inputs, os.path.join(ctx.scratch, "f"), vmp.RandomPolicy(seed, w, True))
@@ -160,7 +183,7 @@ def execute(ctx, desc, recs, recs2, d1, d2, container_ok, gz, cores, bs, seed, w
     else:
         res = run_cli(argv, inputs, os.path.join(ctx.scratch, "f"))
         deadlock, log = None, []
-    e = dict(desc=desc, cores=cores, argv=" ".join(argv), paired=paired,
+    e = dict(desc=desc, cores=cores, argv=" ".join(argv), paired=paired or il, interleaved=il,
              container_ok=container_ok,
              lines1=split_lines(d1) if not gz else ([] if "big" in desc else split_lines(fastq_bytes(recs))),
              lines2=split_lines(d2) if paired else [],
@@ -172,12 +195,15 @@ def execute(ctx, desc, recs, recs2, d1, d2, container_ok, gz, cores, bs, seed, w
         # what counts as "a correctly processed record of the input": the records of the file as it is (damaged)
         exp1 = recs if gz else (leading_records(d1) or recs)
         exp2 = (leading_records(d2) or recs2) if paired else recs2
+        if il:
+            lead = leading_records(d1)
+            exp1, exp2 = (lead[0::2] or recs), (lead[1::2] or recs2)
         # an uncaught exception ends the real program with a traceback on stderr and exit
         # status 1: a visible failure (counted separately in the evidence)
         e.update(exit=(res.exit if not crashed else 1), message=bool(res.errors) or crashed,
                  out1=(prefix_of_big(res.files.get("o1.fastq", b"") or b"") if "big" in desc else
                        match_output(res.files.get("o1.fastq", b"") or b"", exp1)),
-                 out2=match_output(res.files.get("o2.fastq", b"") or b"", exp2) if paired else [])
+                 out2=match_output(res.files.get("o2.fastq", b"") or b"", exp2) if (paired or il) else [])
         if crashed:
             e["crash"] = repr(res.exception)
     e["policy"] = f"seed={seed},weights={w}"
@@ -339,7 +365,7 @@ def replay_fault_behaviours(ctx, rng):
                 res = None
             desc = f"tlc behaviour with fault {fault['kind']} at {fault['at']} (nw={nw}, nc={nc})"
             kinds[fault["kind"]] = kinds.get(fault["kind"], 0) + 1
-            e = dict(id=len(events), desc=desc, cores=nw, argv=" ".join(argv), paired=paired, container_ok=True,
+            e = dict(id=len(events), desc=desc, cores=nw, argv=" ".join(argv), paired=paired, interleaved=False, container_ok=True,
                      lines1=split_lines(d1), lines2=split_lines(d2) if paired else [], hung=bool(deadlock or res is None))
             if res is None or deadlock:
                 e.update(exit=-9, message=False, out1=[], out2=[])
